@@ -63,13 +63,16 @@ def skeleton(line, patterns):
     matches (meaning not unique)."""
     covered = [False] * len(line)
     spans = []
-    for p in patterns:
+    which = []
+    for k, p in enumerate(patterns):
         for m in p.finditer(line):
             a, b = m.span()
             if a == b:
                 raise Abstain('empty-match')
             spans.append((a, b))
+            which.append((a, k))
     spans.sort()
+    which = [k for a, k in sorted(which)]
     for (a1, b1), (a2, b2) in zip(spans, spans[1:]):
         if a2 < b1:
             raise Abstain('overlapping-matches')
@@ -86,7 +89,7 @@ def skeleton(line, patterns):
             out.append(ch)
         prev = c
     # adjacent spans (b1 == a2) are separate matches: count them
-    return ''.join(out), len(spans)
+    return ''.join(out), len(spans), which
 
 
 def excused(a, e, norm, opts, patterns):
@@ -96,17 +99,22 @@ def excused(a, e, norm, opts, patterns):
         if s in e:
             return True
     if patterns:
-        sa, na = skeleton(a, patterns)
-        se, ne = skeleton(e, patterns)
+        sa, na, wa = skeleton(a, patterns)
+        se, ne, we = skeleton(e, patterns)
         if sa == se and na == ne and na > 0:
+            if wa != we:
+                # corresponding parts are matched by *different* patterns:
+                # whether that counts as "differ only in matched parts" is
+                # not specified
+                raise Abstain('different-patterns-same-position')
             return True
         if sa == se and na != ne:
             raise Abstain('adjacent-match-count')
         if norm(a) != a or norm(e) != e:
             # stripping combined with patterns: documented separately, the
             # combination (strip first or match first) is not specified
-            sa2, _ = skeleton(norm(a), patterns)
-            se2, _ = skeleton(norm(e), patterns)
+            sa2 = skeleton(norm(a), patterns)[0]
+            se2 = skeleton(norm(e), patterns)[0]
             if (sa2 == se2) != (sa == se):
                 raise Abstain('strip-with-pattern')
     return False
